@@ -4,24 +4,21 @@ from concurrent.futures import ThreadPoolExecutor
 VIS="api_analyzer/_ast_visitor.py"; GEN="stubs_generator/_stub_string_generator.py"; GS="stubs_generator/_generate_stubs.py"; HELP="stubs_generator/_helper.py"; GA="api_analyzer/_get_api.py"; DP="docstring_parsing/_docstring_parser.py"; MH="api_analyzer/_mypy_helpers.py"
 TY="api_analyzer/_types.py"
 REWRITES = [
- ("constructor target guard nested", VIS, '            if not is_static and not (\n                isinstance(lvalue, mp_nodes.MemberExpr)\n                and isinstance(lvalue.expr, mp_nodes.NameExpr)\n                and getattr(lvalue.expr.node, "is_self", False)\n            ):\n                return attributes\n',
-  '            if not is_static:\n                is_instance_member = (\n                    isinstance(lvalue, mp_nodes.MemberExpr)\n                    and isinstance(lvalue.expr, mp_nodes.NameExpr)\n                    and getattr(lvalue.expr.node, "is_self", False)\n                )\n                if not is_instance_member:\n                    return attributes\n'),
- ("file list sorted in place", GA, '    for file_path in sorted(root.glob(pattern="./**/*.py")):', '    python_files = list(root.glob(pattern="./**/*.py"))\n    python_files.sort()\n    for file_path in python_files:'),
- ("griffe search path as tuple, kwargs reordered", DP, 'load(package_path.name, search_paths=[package_path.parent], docstring_parser=parser)', 'load(package_path.name, docstring_parser=parser, search_paths=(package_path.parent,))'),
- ("package walk-up with a local", DP, '        while (package_path.parent / "__init__.py").is_file() and package_path.parent != package_path:\n            package_path = package_path.parent\n', '        while True:\n            parent_path = package_path.parent\n            if parent_path == package_path or not (parent_path / "__init__.py").is_file():\n                break\n            package_path = parent_path\n'),
- ("class docstring default built explicitly", DP, '        if griffe_node is None:\n            return ClassDocstring()\n', '        if griffe_node is None:\n            return ClassDocstring(description="", full_docstring="", examples=[])\n'),
- ("untyped argument merged with the Any case", VIS, '            if mypy_type is None:\n                # Mypy does not analyse every function (e.g. unreachable code or functions with @no_type_check), for\n                # those we have no type information\n                pass\n            elif isinstance(mypy_type, mp_types.AnyType) and not has_correct_type_of_any(mypy_type.type_of_any):',
-  '            if mypy_type is None or (\n                isinstance(mypy_type, mp_types.AnyType) and not has_correct_type_of_any(mypy_type.type_of_any)\n            ):'),
- ("dict arity greater than one", VIS, 'elif type_name in {"dict", "Mapping"} and len(mypy_type.args) == 2:', 'elif type_name in {"dict", "Mapping"} and len(mypy_type.args) > 1:'),
- ("alias expansion nested ifs", VIS, '        if isinstance(mypy_type, mp_types.TypeAliasType) and not mypy_type.is_recursive:\n            mypy_type = mp_types.get_proper_type(mypy_type)\n', '        if isinstance(mypy_type, mp_types.TypeAliasType):\n            if not mypy_type.is_recursive:\n                mypy_type = mp_types.get_proper_type(mypy_type)\n'),
- ("Final argument through a local", VIS, '                    return sds_types.FinalType(type_=self.mypy_type_to_abstract_type(mypy_type, unanalyzed_args[0]))', '                    final_argument = unanalyzed_args[0]\n                    return sds_types.FinalType(type_=self.mypy_type_to_abstract_type(mypy_type, final_argument))'),
- ("unbound name compared with the empty string", MH, '        elif not expr.fullname:', '        elif expr.fullname == "":'),
- ("open keywords reordered", GS, 'file_path.open("w", encoding="utf-8", errors="backslashreplace")', 'file_path.open("w", errors="backslashreplace", encoding="utf-8")'),
- ("digit test on the first character with emptiness test", HELP, '    if converted_name[:1].isdigit():', '    if converted_name and converted_name[0].isdigit():'),
- ("ABC filtered before the loop", GEN, '        superclasses = class_.superclasses\n', '        superclasses = [superclass for superclass in class_.superclasses if superclass != "abc.ABC"]\n'),
- ("type variable definition test through a local", GEN, '                if attribute_type["kind"] == "TypeVarType" and attribute_type["name"] == attribute.name:\n                    continue', '                is_type_var_definition = attribute_type["kind"] == "TypeVarType" and attribute_type["name"] == attribute.name\n                if is_type_var_definition:\n                    continue'),
- ("finite test through a local", VIS, '                if isinstance(inferred_default_value, float) and not math.isfinite(inferred_default_value):', '                is_infinite = isinstance(inferred_default_value, float) and not math.isfinite(inferred_default_value)\n                if is_infinite:'),
- ("docstring lookup miss through a local result", DP, '                logging.warning(msg)\n                return None\n\n        return griffe_node', '                logging.warning(msg)\n                griffe_node = None\n                break\n\n        return griffe_node'),
+ ("init file test via basename", GA, 'if ast_path.name == "__init__.py":', 'if ast_path.parts[-1] == "__init__.py":'),
+ ("docstring from the first statement via index", "docstring_parsing/_helpers.py", '    for definition in definitions[:1]:\n        if isinstance(definition, nodes.ExpressionStmt) and isinstance(definition.expr, nodes.StrExpr):\n            full_docstring = definition.expr.value', '    if definitions:\n        first_statement = definitions[0]\n        if isinstance(first_statement, nodes.ExpressionStmt) and isinstance(first_statement.expr, nodes.StrExpr):\n            full_docstring = first_statement.expr.value'),
+ ("registration guard operands swapped", GS, '        if file_path.stem == file_path.parent.name:', '        if file_path.parent.name == file_path.stem:'),
+ ("matched docstrings kept in a set of ids", VIS, '            matched_docstrings: list[ResultDocstring] = []\n', '            matched_docstrings: list[ResultDocstring] = list()\n'),
+ ("type-from-default condition reordered", VIS, '                if arg_type is None and (default_is_none or default_value is not None):', '                if (default_value is not None or default_is_none) and arg_type is None:'),
+ ("module privacy through a local", VIS, '(qualified_import.alias is None and not is_internal(module_name))', '(qualified_import.alias is None and not module_name.startswith("_"))'),
+ ("conditional branches with a tuple display", MH, '    for branch in [expr.if_expr, expr.else_expr]:', '    for branch in (expr.if_expr, expr.else_expr):'),
+ ("alias of the own import via rsplit", GEN, '                if qualified_import.qualified_name.split(".")[-1] == node.name:', '                if qualified_import.qualified_name.rsplit(".", 1)[-1] == node.name:'),
+ ("self type test via type()", VIS, '                        if isinstance(self_type, mp_types.Instance):', '                        if self_type is not None and isinstance(self_type, mp_types.Instance):'),
+ ("missing import name tested with is not None", VIS, 'if mypy_type.type_of_any == mp_types.TypeOfAny.from_unimported_type and mypy_type.missing_import_name:', 'if mypy_type.type_of_any == mp_types.TypeOfAny.from_unimported_type and mypy_type.missing_import_name is not None:'),
+ ("coroutine test reordered", VIS, '                    node.is_coroutine\n                    and isinstance(node_ret_type, mp_types.Instance)\n                    and node_ret_type.type.fullname == "typing.Coroutine"', '                    isinstance(node_ret_type, mp_types.Instance)\n                    and node.is_coroutine\n                    and node_ret_type.type.fullname == "typing.Coroutine"'),
+ ("package parent via parents[0] is not used: parent twice", GS, '            corrected_module_dir = module_dir.parent\n', '            corrected_module_dir = module_dir.parent\n            corrected_module_dir = Path(corrected_module_dir)\n'),
+ ("builtin class test with a set of prefixes", VIS, '            is_builtin_class = mypy_type.type.fullname.startswith(("builtins.", "typing."))', '            is_builtin_class = mypy_type.type.fullname.split(".")[0] in ("builtins", "typing")'),
+ ("union items flattened in a separate statement", VIS, '            union_items = mp_types.flatten_nested_unions(mypy_type.items, handle_recursive=False)\n            return sds_types.UnionType(types=[self.mypy_type_to_abstract_type(item) for item in union_items])', '            flat_items = mp_types.flatten_nested_unions(mypy_type.items, handle_recursive=False)\n            translated = [self.mypy_type_to_abstract_type(item) for item in flat_items]\n            return sds_types.UnionType(types=translated)'),
+ ("enum test extracted into a local in the walker", "api_analyzer/_ast_walker.py", '            if isinstance(node, ClassDef) and self.__is_enum(node):', '            if self.__is_enum(node) and isinstance(node, ClassDef):'),
 ]
 PROPS=[f"C{i:02d}" for i in range(1,21)]
 def run(prop, repo):
